@@ -180,7 +180,7 @@ def interval_tier(draw, style=None, max_segments: int = 6, label=SMALL_LABELS, n
     else:
         minT = draw(st.sampled_from([0.0, lo]))
     if span == "any":
-        extra = draw(st.sampled_from([0.0, 0.0, 1.0, 0.5, 0.3]))
+        extra = draw(st.sampled_from([0.0, 0.0, 1.0, 0.5, 0.25]))
     else:
         extra = 0.0
     maxT = hi + extra
